@@ -47,6 +47,11 @@ def gen(tier, seed):
               "    from harness.c04lib import abi_k_mixed", "    return abi_k_mixed(u1, (u1 * 5 + 2) % 11, opt, g)", ""])
     conds.append({"fn": "h_abi_k_mixed", "what": "the per-environment rate constants of a reaction (orders 1 and 2, three environments, entries written in different units) reach the native engine with their physical values, entry by entry",
                   "sig": "c19-abi-rate-constants", "structure": "reactions", "enumerate": True, "viol": "the rate-constant vector handed to the engine is not the per-environment constants of the reactions"})
+    add("split_after_edit", "c19-split-after-edit", "split_after_edit(how, form, 'ABG'[u])", ["pre: 0 <= how <= 4 and 0 <= form <= 1 and 0 <= u <= 2"],
+        "a Reaction whose constants are edited AFTER split() / K were evaluated once (kf setter, kr setter, set_k, units system replaced, dictionary edited in place; scalar and per-environment values; 3 unit systems) "
+        "splits into the halves of a fresh reaction with the edited content, and K is the ratio of the current constants", "how: int, form: int, u: int",
+        viol="split() / K of a reaction still use the constants it had when they were first evaluated: after kf / kr are edited, the halves (and the simulation built from them) keep the old constant")
+    conds[-1]["enumerate"] = True
     for form in (0, 1):
         add("K_mixed_%d" % form, "c19-K", "K_mixed_ok(a, b, %d)" % form, ["pre: 1e-6 < a < 1e6 and 0 <= b < 1e6"],
             "equilibrium constant when only %s is a per-environment dictionary (kr = 0 gives None)" % ("kr" if form == 0 else "kf"), "a: float, b: float")
